@@ -8,11 +8,10 @@ Open Scope N_scope.
 Lemma fixpoint_thm : forall fuel P rt base st,
   wf_rules P = true ->
   (forall f e, In (f, e) base -> 0 < e /\ e <= INF) ->
-  functional_base base ->
   scratch_core fuel P rt base = Some st ->
   forall c f e, In (c, f, e) st <-> (rt (tpred f) = Some c /\ is_E P base f e).
 Proof.
-  intros fuel P rt base st Hwf Hb Hfun H c f e.
+  intros fuel P rt base st Hwf Hb H c f e.
   assert (E_state P base rt 0 st) as HE.
   { eapply first_base; try eassumption. unfold INF. lia. }
   rewrite (E_state_iff _ _ _ _ _ HE c f e). split; [tauto|].
@@ -28,14 +27,11 @@ Lemma step_thm : forall fuel P S S' old now now' st',
   E_state P (translate S' now') (route S') now' st'.
 Proof.
   intros fuel P S S' old now now' st' Hwf Hrt Hlt Hsok Hwc HE H.
-  unfold sds_ok in Hsok. rewrite !andb_true_iff in Hsok. destruct Hsok as [[Hnow Hno] Hfun].
-  apply N.ltb_lt in Hnow. apply functional_b_spec in Hfun. unfold incremental in H.
+  unfold sds_ok in Hsok. rename Hsok into Hnow. apply N.ltb_lt in Hnow. unfold incremental in H.
   eapply (step_base fuel P (route S) (route S') (translate S now) (translate S' now') old now now' st'); try eassumption.
   - lia.
-  - intros f e Hin. eapply translate_cap. exact Hin.
   - apply translate_alive. exact Hnow.
   - apply consistent_translate. exact Hwc.
-  - apply static_translate; assumption.
 Qed.
 
 Lemma first_thm : forall fuel P S now st,
@@ -44,8 +40,7 @@ Lemma first_thm : forall fuel P S now st,
   E_state P (translate S now) (route S) now st.
 Proof.
   intros fuel P S now st Hwf Hsok H.
-  unfold sds_ok in Hsok. rewrite !andb_true_iff in Hsok. destruct Hsok as [[Hnow Hno] Hfun].
-  apply N.ltb_lt in Hnow. apply functional_b_spec in Hfun. unfold incremental in H.
+  unfold sds_ok in Hsok. rename Hsok into Hnow. apply N.ltb_lt in Hnow. unfold incremental in H.
   eapply first_base; try eassumption. apply translate_alive. exact Hnow.
 Qed.
 
@@ -66,7 +61,7 @@ Proof.
   intros P prev steps. revert prev. induction steps as [|[S' now'] rest IH]; intros prev x H Hx; [destruct Hx|].
   cbn [history_ok] in H. rewrite !andb_true_iff in H. destruct H as [[[Hsok _] _] Hrest].
   destruct Hx as [<- | Hx]; [|eapply IH; eauto].
-  unfold sds_ok in Hsok. rewrite !andb_true_iff in Hsok. destruct Hsok as [[Hnow _] _]. apply N.ltb_lt in Hnow. exact Hnow.
+  unfold sds_ok in Hsok. apply N.ltb_lt in Hsok. exact Hsok.
 Qed.
 
 Lemma history_thm : forall fuel P steps outs,
@@ -87,24 +82,23 @@ Qed.
 
 (* ---- termination ------------------------------------------------------------------------------------------ *)
 Lemma terminates_base : forall P rt' base' old now' fuel,
-  wf_rules P = true -> now' < INF -> alive_base base' now' -> functional_base base' ->
+  wf_rules P = true -> now' < INF -> alive_base base' now' ->
   old_ok P base' old now' ->
   (fuel_bound P base' old now' <= fuel)%nat ->
   exists st', incr_core fuel P rt' base' old now' = Some st'.
 Proof.
-  intros P rt' base' old now' fuel Hwf Hnow Halive Hfun (O1 & O2 & O3 & O4) Hfuel.
+  intros P rt' base' old now' fuel Hwf Hnow Halive (O1 & O2) Hfuel.
   apply incr_core_terminates; [exact Hwf | | exact Hfuel].
-  exact (incr_LInv P base' old now' Hwf Hnow Halive Hfun O1 O2 O3 O4).
+  exact (incr_LInv P base' old now' Hwf Hnow Halive O1 O2).
 Qed.
 
 Lemma scratch_terminates : forall fuel P rt base,
   wf_rules P = true ->
   (forall f e, In (f, e) base -> 0 < e /\ e <= INF) ->
-  functional_base base ->
   (fuel_bound P base [] 0 <= fuel)%nat ->
   exists st, scratch_core fuel P rt base = Some st.
 Proof.
-  intros fuel P rt base Hwf Hb Hfun Hfuel. unfold scratch_core.
+  intros fuel P rt base Hwf Hb Hfuel. unfold scratch_core.
   apply terminates_base; try assumption; [unfold INF; lia | apply empty_old_ok; exact Hwf].
 Qed.
 
@@ -116,14 +110,11 @@ Lemma step_terminates : forall fuel P S S' old now now',
   exists st', incremental fuel P S' old now' = Some st'.
 Proof.
   intros fuel P S S' old now now' Hwf Hrt Hlt Hsok Hwc HE Hfuel.
-  unfold sds_ok in Hsok. rewrite !andb_true_iff in Hsok. destruct Hsok as [[Hnow Hno] Hfun].
-  apply N.ltb_lt in Hnow. apply functional_b_spec in Hfun. unfold incremental.
+  unfold sds_ok in Hsok. rename Hsok into Hnow. apply N.ltb_lt in Hnow. unfold incremental.
   apply terminates_base; try assumption; [apply translate_alive; exact Hnow|].
   eapply (step_old_ok P (route S) (translate S now) (translate S' now') old now now'); try eassumption.
   - lia.
-  - intros f e Hin. eapply translate_cap. exact Hin.
   - apply consistent_translate. exact Hwc.
-  - apply static_translate; assumption.
 Qed.
 
 Lemma first_terminates : forall fuel P S now,
@@ -132,8 +123,7 @@ Lemma first_terminates : forall fuel P S now,
   exists st, incremental fuel P S [] now = Some st.
 Proof.
   intros fuel P S now Hwf Hsok Hfuel.
-  unfold sds_ok in Hsok. rewrite !andb_true_iff in Hsok. destruct Hsok as [[Hnow Hno] Hfun].
-  apply N.ltb_lt in Hnow. apply functional_b_spec in Hfun. unfold incremental.
+  unfold sds_ok in Hsok. rename Hsok into Hnow. apply N.ltb_lt in Hnow. unfold incremental.
   apply terminates_base; try assumption; [apply translate_alive; exact Hnow | apply empty_old_ok; exact Hwf].
 Qed.
 
